@@ -11,6 +11,7 @@ UNIT = dict(
         "Chaos::poll_ready@Service": dict(),
         "Chaos::call@Service": dict(rules=[
             ("R4",), ("R3",),
+            ("sub", "ghost-inject", r"proof \{ tr\.future_created\(\); \}", "proof { assert(tr.draws == 0);   // #all_draws_of_a_request_are_taken_together_inside_its_future [C19]\n tr.future_created(); }", 1),
             ("inject", None, "start", "broadcast use chaos_float_axioms;"),
             ("sub", "R8-lock", r"\brng\.lock\(\)\.unwrap\(\)", "vx_lock(&rng)", -1),
             ("sub", "R14-float", r"let mut error_roll: f64 = 1\.0;", "let mut error_roll: f64 = vx_one();", 1),
@@ -18,8 +19,7 @@ UNIT = dict(
             ("sub", "R14-float", r"config\.latency_rate > 0\.0", "vx_f64_positive(config.latency_rate)", 1),
             ("sub", "R14-float", r"error_roll >= config\.error_injector\.error_rate\(\)", "vx_f64_ge(error_roll, config.error_injector.error_rate())", 1),
             ("sub", "R14-float", r"latency_roll < config\.latency_rate", "vx_f64_lt(latency_roll, config.latency_rate)", 1),
-            ("sub", "R14-rng", r"error_roll = (\w+)\.random\(\);", r"error_roll = \1.vx_random(Tracked(tr));", 1),
-            ("sub", "R14-rng", r"let latency_roll: f64 = (\w+)\.random\(\);", r"let latency_roll: f64 = \1.vx_random(Tracked(tr));", 1),
+            ("sub", "R14-rng", r"\.random\(\)", ".vx_random(Tracked(tr))", 2),
             ("sub", "R14-rng", r"(\w+)\.random_range\(min_ms\.\.=max_ms\)", r"\1.vx_random_range(min_ms, max_ms, Tracked(tr))", 1),
             ("sub", "R9-paths", r"tokio::time::sleep", "sleep", 1),
             ("addarg", ["call"], TR, 1),
